@@ -298,6 +298,44 @@ class Body:
                     todo.append((s2, nst))
         return out
 
+    def err_places(self):
+        """Locals an `Err(..)` assigned to which is returned by the function: the return place, and the result place of an expanded fallible helper --
+        a local that is only ever assigned Ok(..)/Err(..) aggregates and is consumed by one `?` whose residual goes to the return place."""
+        if getattr(self, "_errp", None) is not None:
+            return self._errp
+        res = {0}
+        cand = {}
+        moved = {}
+        bad = set()
+        for bi in self.reachable_blocks():
+            bb = self.blocks[bi]
+            for st in bb["stmts"]:
+                if st["k"] == "assign" and not st["pl"]["p"]:
+                    rv = st["rv"]
+                    if rv["k"] == "agg" and rv.get("agg") == "adt" and rv["adt"].endswith("result::Result") and rv.get("variant") in ("Ok", "Err"):
+                        cand.setdefault(st["pl"]["l"], 0)
+                    elif rv["k"] == "use" and rv["ops"][0].get("k") == "move" and not rv["ops"][0]["pl"]["p"] and st["pl"]["l"] not in moved:
+                        moved[st["pl"]["l"]] = rv["ops"][0]["pl"]["l"]      # the result place handed on to the `?`
+                    else:
+                        bad.add(st["pl"]["l"])
+            t = bb["term"]
+            if t["k"] == "call" and not t["dest"]["p"]:
+                bad.add(t["dest"]["l"])
+        residual_returned = any(self.blocks[bi]["term"]["k"] == "call" and self.blocks[bi]["term"].get("callee", "").endswith("FromResidual::from_residual")
+                                and self.blocks[bi]["term"]["dest"]["l"] == 0 and not self.blocks[bi]["term"]["dest"]["p"] for bi in self.reachable_blocks())
+        if residual_returned:
+            for bi in self.reachable_blocks():
+                t = self.blocks[bi]["term"]
+                if t["k"] == "call" and t.get("callee", "").endswith("Try::branch") and t.get("args") and t["args"][0].get("k") == "move" and not t["args"][0]["pl"]["p"]:
+                    l = t["args"][0]["pl"]["l"]
+                    if l in moved and l not in bad and l not in cand:
+                        l = moved[l]
+                    if l in cand:
+                        cand[l] += 1
+            res |= {l for l, n in cand.items() if n == 1 and l not in bad}
+        self._errp = res
+        return res
+
     def _normal_blocks(self):
         if getattr(self, "_nb", None) is None:
             self._nb = {i for i, b in enumerate(self.blocks) if not b.get("cleanup")}
@@ -542,6 +580,36 @@ class Body:
                 alts.append(self.term_call(d[1]))
         return alts
 
+    def place_alts(self, t):
+        """Terms of everything stored in the storage location `t`: a multiply-assigned local (`var`), or one field of such a local (`var.f`, a piece of state kept in a
+        struct local): the field's value in every full definition of the struct plus every assignment to that field alone."""
+        if isinstance(t, tuple) and len(t) == 2 and t[0] == "var":
+            return self.var_alts(t[1])
+        if isinstance(t, tuple) and len(t) == 3 and t[0] == "field" and isinstance(t[1], tuple) and len(t[1]) == 2 and t[1][0] == "var":
+            alts = []
+            for d in self.defs().get(t[1][1], []):
+                if d[0] == "assign":
+                    alts.append(self.apply_proj(self.term_rvalue(d[3], (d[1], d[2])), [("field", None, t[2])]))
+                elif d[0] == "call":
+                    alts.append(("field", self.term_call(d[1]), t[2]))
+                elif d[0] == "partial":
+                    pj = d[3]["p"]
+                    if pj and pj[0][0] == "field" and pj[0][2] == t[2]:
+                        if len(pj) > 1:
+                            alts.append(("other", "partial store below the field"))
+                        elif d[4] is not None:
+                            alts.append(self.term_rvalue(d[4], (d[1], d[2])))
+                        elif d[2] == -1:
+                            alts.append(self.term_call(d[1]))
+                        else:
+                            alts.append(("other", "set_discriminant"))
+            return alts
+        return []
+
+    def dominates_ps(self, a, b):
+        """Every feasible path from the entry to block b passes block a (feasible as in reach_ps: the arm of a `?` follows the variant built on the path)."""
+        return a == b or b not in self.reach_ps(0, avoid_blocks={a})
+
     _PRIM_CMP = re.compile(r"^<(&*)(f64|f32|u8|u16|u32|u64|u128|usize|i8|i16|i32|i64|i128|isize|bool|char) as std::cmp::Partial(Ord|Eq)(<[^>]*>)?>::(lt|le|gt|ge|eq|ne)$")
 
     def term_call(self, bi):
@@ -575,6 +643,12 @@ class Body:
                 else:
                     t = ("deref", t)
             elif k == "field":
+                # `x?` where x is the result place of an expanded fallible helper (one `Ok(v)`, every other definition an `Err(..)`): the value is v
+                if t[0] == "downcast" and t[2] == "Continue" and str(p[2]) == "0" and isinstance(t[1], tuple) and t[1] and t[1][0] == "call" and t[1][1].endswith("Try>::branch") and t[1][2]:
+                    v = self._ok_payload_of(t[1][2][0])
+                    if v is not None:
+                        t = v
+                        continue
                 # field of a struct local that is built once by an aggregate and later only has OTHER fields re-assigned
                 if t[0] == "var":
                     ds = self.defs().get(t[1], [])
@@ -604,6 +678,18 @@ class Body:
             else:
                 t = (k, t)
         return t
+
+    def _ok_payload_of(self, x):
+        if not (isinstance(x, tuple) and len(x) == 2 and x[0] == "var"):
+            return None
+        alts = self.var_alts(x[1])
+        if len(alts) == 1 and isinstance(alts[0], tuple) and len(alts[0]) == 2 and alts[0][0] == "var":
+            alts = self.var_alts(alts[0][1])
+        oks = [a for a in alts if isinstance(a, tuple) and a and a[0] == "agg" and a[1] == "adt" and a[2].endswith("Result::Ok") and a[3]]
+        rest = [a for a in alts if a not in oks]
+        if len(oks) == 1 and rest and all(isinstance(a, tuple) and a and a[0] == "agg" and a[1] == "adt" and a[2].endswith("Result::Err") for a in rest):
+            return oks[0][3][0]
+        return None
 
     def term_operand(self, op):
         k = op["k"]
